@@ -54,8 +54,8 @@ GLUE["uni_zero_copy_full_sync"] = dict(GLUE["uni_zero_copy_atomic"],
                                                       "Arc::new(Self { streams_manager: Arc::new(manager), channel, _phantom: PhantomData })"))
 
 HARNESSES = [  # (fn name, props tags, kit call, needs reserved-slot API)
- ("send_accept_or_reject",                 "C01 C02 C16",      "kit::uni_accept_or_reject::<Ch, $n, $m>(Entry::Send)", False),
- ("send_with_accept_or_reject",            "C01 C02 C16",      "kit::uni_accept_or_reject::<Ch, $n, $m>(Entry::SendWith)", False),
+ ("send_accept_or_reject",                 "C01 C02 C16 C15",  "kit::uni_accept_or_reject::<Ch, $n, $m>(Entry::Send)", False),
+ ("send_with_accept_or_reject",            "C01 C02 C16 C15",  "kit::uni_accept_or_reject::<Ch, $n, $m>(Entry::SendWith)", False),
  ("send_with_async_accept_or_reject",      "C01 C16",          "kit::uni_accept_or_reject::<Ch, $n, $m>(Entry::SendWithAsync)", False),
  ("reserved_accept_or_reject",             "C01 C08 C16",      "kit::uni_accept_or_reject::<Ch, $n, $m>(Entry::Reserved)", True),
  ("consume_fifo",                          "C01 C02",          "kit::uni_consume_fifo::<Ch, $n, $m>()", False),
